@@ -211,6 +211,15 @@ def main(argv=None) -> int:
   shards = mod.shards(a.tier, seed)
   if a.only:
     shards = [s for s in shards if a.only in s['name']]
+  # size the tier by total wall time: shard budgets are scaled down if their sum exceeds the wall cap
+  cap = float(os.environ.get('VERIF_WALL_S', '1500' if a.tier == 'thorough' else '240'))
+  total = sum(s.get('budget_s', 60) for s in shards)
+  allowed = cap * max(1, min(a.jobs, len(shards) or 1)) * 0.85
+  if total > allowed:
+    f = allowed / total
+    for s in shards:
+      s['budget_s'] = max(5.0, s.get('budget_s', 60) * f)
+    print(f'note: shard budgets scaled by {f:.2f} to fit the {cap:.0f}s wall cap of the {a.tier} tier', flush=True)
   known, fixed = load_findings(prop)
 
   # 1. listed known findings: replay the committed witness against the current tree.
